@@ -55,11 +55,11 @@ func TestC40(t *testing.T) {
 		m.Note("openssl witness unavailable")
 	}
 
-	nV := m.N(1200, 48000)
+	nV := m.N(1200, 19200)
 	m.Cases("verify", nV, h.verifyCase)
-	nS := m.N(1024, 1024*24)
+	nS := m.N(1024, 1024*8)
 	m.Cases("sk", nS, h.skCase)
-	nT := m.N(1536+256, (1536+256)*6)
+	nT := m.N(1536+256, (1536+256)*4)
 	m.Cases("notouch", nT, h.noTouchCase)
 	m.Each("multi", len(multiBases), h.multiCase)
 	m.Each("malformed-keys", 1, h.malformedKeys)
